@@ -39,8 +39,6 @@ fn corpus() -> Vec<(String, Vec<Op>)> {
         // known finding: payload-less update of a chunked document reads back empty
         ("kf-payloadless-update-of-chunked".into(), vec![put(PayloadKind::Ascii, 5000, 21, 100), Op::Commit,
             Op::Update(UpdSpec { id: 0, tags: vec!["x".into()], ..Default::default() }), Op::Commit, Op::Reopen]),
-        // known finding: non-UTF-8 payload whose extracted text is chunked reads back as that text
-        ("kf-binary-extracted-plan".into(), vec![put(PayloadKind::Rand, 20_000, 22, 100), Op::Commit, Op::Reopen]),
         ("empty-payloads".into(), vec![put(PayloadKind::Empty, 0, 1, 5), put(PayloadKind::Empty, 0, 2, 6), Op::Commit, put(PayloadKind::Zero, 100, 3, 7), Op::Reopen]),
     ]
 }
